@@ -65,6 +65,51 @@ FUNCTIONS = [
     "autoarray.inversion.inversion.imaging.w_tilde.InversionImagingWTilde.curvature_matrix",
     "autoarray.inversion.regularization.regularization_util.constant_regularization_matrix_from",
 ]
+BOUNDS = {
+    "quick": "Part A: all masks (>=1 unmasked pixel) of every shape <=3x3 for Mask2D/Array2D/Kernel2D/Grid2D/VectorYX2D/irregular "
+             "structures (native and slim input, both storage modes; payload values symbolic reals); Imaging, SimulatorImaging, "
+             "Kernel2D.normalized, apply_noise_scaling, MapperGrids/Mapper (rectangular 3x3 mesh), MapperValued, aa.Inversion (imaging: "
+             "both formalisms by a forked use_w_tilde flag; interferometer route of the factory) for all masks with H*W<=6 (>=2 unmasked) "
+             "inside a masked ring; data, noise, PSF, adapt data, values symbolic.  Part B: every history of k<=2 operations + 1 "
+             "observation (indices = symbolic integers forked by the explorer; repeated operations and the no-op included) on: "
+             "Visibilities (2 symbolic complex values; 18 ops, 13 observations), Array2D and Kernel2D (3x3 masks 'plus'/'all', slim and "
+             "native storage; 22 ops), Grid2D (2 unmasked pixels, slim and native storage; 21 ops), Mask2D (all 7 four-fold symmetric "
+             "3x3 masks, symbolic pixel scale; 11 ops), masked Imaging 4x4 (symbolic data/noise/origin, concrete PSF; 12 ops), and "
+             "mapper + 2 valued mappers + inversion on 5x5 frames with 9 / 6 unmasked pixels (mapping formalism k<=2, w-tilde k<=1; "
+             "symbolic data and mapper values; 20 ops, 16 observations).  Part C: poisson/gaussian helpers of dataset.preprocess and "
+             "SimulatorImaging.via_image_from (with and without PSF) on a 2x3 image: symbolic image, sky level, PSF, seed (every integer "
+             "0 <= k < 2^32) and two symbolic prior generator states",
+    "thorough": "Part A additionally all 3x3 masks for the dataset/mapper/inversion constructors.  Part B with the full operation lists "
+                "(up to 33 ops per level), more masks (3x3 'L', 4x3 mixed, 2x3 diagonal, 4x4 symmetric masks, 5x5 frames with 9 and 6 "
+                "pixels for both inversion formalisms at k<=2), Visibilities with 3 values, k<=3 on the Visibilities level, all 511 "
+                "3x3 masks at k<=1 on the Mask2D level, signal_to_noise_map histories of length 2.  Part C also 3x3 images",
+}
+OUTSIDE = [
+    "histories longer than the stated k (bounded model checking of the history quantifier, no induction)",
+    "Interferometer datasets / transformers / the pylops inversion (pylops is absent); only the factory route for a non-Imaging dataset is constructed",
+    "Imaging.w_tilde with a symbolic noise map or PSF (read only with concrete noise/PSF on the inversion level); signal_to_noise_map only in dedicated short histories (it forks on the sign of every pixel)",
+    "Voronoi / Delaunay mappers, interpolated_array_from, magnification_* of MapperValued; positive-only solver (use_positive_only_solver=False), check_reconstruction=False",
+    "data_with_complex_gaussian_noise_added (complex arithmetic on the RNG draws) - its seeding goes through gaussian_noise_via_shape_and_sigma_from, which is covered",
+    "bit-exact determinism of compiled / BLAS routines; float64 rounding (exact real arithmetic; every sat verdict replayed in float64)",
+    "aliasing that never leads to a changed value (e.g. Grid2D(values=slim) keeps a reference to the caller's array)",
+]
+STUBS = [
+    "numpy global RNG inside autoarray.dataset.preprocess: state = (seed term, draws since seeding); seed(k) sets it; randint/poisson/normal "
+    "return uninterpreted functions rng_*(state, draw counter, element index, parameter). Contract: a draw depends on nothing but the generator state and its arguments",
+    "scipy.signal.convolve2d(mode='same') inside kernel_2d for symbolic operands: direct double sum (validated against scipy under solver models each run)",
+    "np.linalg.solve inside inversion_util with a CONCRETE matrix and symbolic right-hand side: inv(A) by LAPACK times b (linearity of the solve); cholesky/inv get float64 copies of all-concrete object arrays",
+    "symbolic complex numbers: harness-level SymComplex(re, im) elements in an ndarray subclass with element-wise .real/.imag; np.real/np.imag facades extended accordingly",
+    "boolean-mask indexing AbstractNDArray[cond] with a symbolic condition: the condition is concretised by forking before the real __getitem__ runs",
+    "sqrt as an uninterpreted function in Part C only (equality of outputs needs congruence only)",
+    "np.arctan2 of symbolic arguments: the engine's unit-vector angle model; phases are compared as (cos, sin) pairs",
+]
+ASSUMPTIONS = [
+    "relational oracle: the expected value of an observation is the same observation on a freshly built object graph on which only the derivation steps of the history were replayed (independent references: caller-owned arrays = their original terms; Visibilities.ordered_1d = concat(re, im) of the object's own contents; simulator output = values + (values - draw(seed k)/t))",
+    "conf general.inversion.check_reconstruction is switched off for the inversion graphs (it adds one symbolic fork per solve)",
+    "Visibilities level: real parts non-zero and different from the subtracted constant (the angle model and numpy disagree on the phase of exactly 0)",
+    "noise maps >= 1/2, PSF sums >= 1/2, pixel scale >= 1/8, multiplier c != 0 on the Visibilities level",
+    "known-finding regions are predicates over the (concrete) history and observation of a path, see known_findings.d/C11.json",
+]
 EXPLORER_OPTS = {"timeout_ms": 20000, "max_paths": 200000, "max_decisions": 600}
 BUDGET_S = {"quick": 900, "thorough": 2300}
 MAX_REPLAY = 40
@@ -358,11 +403,13 @@ def body_ctor_graph(inp, H, W):
     psf = aa.Kernel2D.no_mask(values=pv.copy(), pixel_scales=(1.0, 1.0))
     ncm = np.array(np.diag(nv.reshape(-1)[:n]), copy=True)
     ncm_before = ncm.copy()
-    before = {"data": _snap(data), "noise": _snap(noise), "psf": _snap(psf)}
+    before = {"data": _snap(data), "noise": _snap(noise), "psf": _snap(psf), "mask": mask_before, "ncm": ncm_before}
 
     def unchanged(tag):
-        A[tag] = [_snap(data), _snap(noise), _snap(psf), _snap(m), ncm]
-        E[tag] = [before["data"], before["noise"], before["psf"], mask_before, ncm_before]
+        A[tag] = [_snap(data), _snap(noise), _snap(psf), _snap(m), ncm.copy()]
+        E[tag] = [before["data"], before["noise"], before["psf"], before["mask"], before["ncm"]]
+        # every check is relative to the state just before its own call
+        before.update({"data": _snap(data), "noise": _snap(noise), "psf": _snap(psf), "mask": _snap(m), "ncm": ncm.copy()})
 
     ds = _mk(aa.Imaging, data=data, noise_map=noise, psf=psf, noise_covariance_matrix=ncm)
     unchanged("Imaging(data, noise_map, psf, noise_covariance_matrix): inputs")
@@ -1495,9 +1542,8 @@ def cases(tier):
         for cls, sn, mid in (("Array2D", 0, "3x3_plus"), ("Array2D", 1, "3x3_L"), ("Array2D", 0, "4x3_mixed"), ("Kernel2D", 0, "3x3_plus"),
                              ("Kernel2D", 1, "3x3_all"), ("Kernel2D", 0, "3x3_all")):
             out += _hist_cases("array", {"mask_id": mid, "cls": cls, "sn": sn, "full": True}, 2)
-        out += _hist_cases("array", {"mask_id": "3x3_plus", "cls": "Kernel2D", "sn": 0}, 3)
-        for sn, mid in ((0, "2x2_diag"), (1, "2x2_diag"), (0, "2x3_diag")):
-            out += _hist_cases("grid", {"mask_id": mid, "sn": sn, "full": True}, 2)
+        for sn, mid, full in ((0, "2x2_diag", True), (1, "2x2_diag", True), (0, "2x3_diag", False)):
+            out += _hist_cases("grid", {"mask_id": mid, "sn": sn, "full": full}, 2)
         out += _hist_cases("mask", {"H": 3, "W": 3, "family": "sym4", "full": True}, 2)
         out += _hist_cases("mask", {"H": 4, "W": 4, "family": "sym4"}, 2)
         out += _hist_cases("mask", {"H": 3, "W": 3, "family": "all"}, 1)
